@@ -181,7 +181,7 @@ async fn build(m: &Material, r: &Route, form: &str, who: &Ident) -> Option<RawRe
         "garbage_account_header" => account = Some("not-an-account-id".into()),
         "unknown_account_header" => {
             // creation of a NEW account is permissionless by design
-            if r.method == "PUT" && r.path == format!("{V1}/sync/account") {
+            if r.method == "PUT" && r.path.replace("//", "/") == format!("{V1}/sync/account") {
                 return None;
             }
             account = Some(AccountId::random().to_string());
@@ -475,7 +475,7 @@ const DICTIONARY: &[&str] = &[
     "/api/v1/sync/account/device", "/api/v1/sync/account/identity", "/api/v1/sync/account/recover", "/api/v1/sync/account/folders", "/api/v1/sync/account/files", "/api/v1/sync/accounts",
     "/api/v1/accounts", "/api/v1/account", "/api/v1/sync/file", "/api/v1/sync/files/", "/api/v1/sync/folders", "/api/v1/sync/device", "/api/v1/sync/devices", "/api/v1/sync/events",
     "/api/v1/sync/status", "/api/v1/admin", "/api/v1/debug", "/api/v1/health", "/api/v1/metrics", "/metrics", "/health", "/status", "/api/v1//sync/account", "/api/v1/sync//account",
-    "/API/V1/sync/account", "/api/v1/sync/account%2Fstatus", "/api/v1/sync/account/../account", "/api/v1/sync/account;x=1", "/sync/account", "/sync/account/status", "/sync/files", "/relay",
+    "/API/V1/sync/account", "/api/v1/sync/account%2Fstatus", "/api/v1/sync/account;x=1", "/sync/account", "/sync/account/status", "/sync/files", "/relay",
 ];
 
 /// Returns (live (method, template, concrete path)) for everything that is
@@ -568,7 +568,8 @@ async fn expect_refused(ctx: &Ctx<'_>, rep: &mut Reporter, server: &TestServer, 
     let changed = http::fp_diff(&baseline, &after);
     let rp = replay(ctx.args, ctx.server_db, ctx.cfg.name, r, form, who.name, &req, Some(&resp));
     let by_config = why != "credential";
-    if (200..400).contains(&resp.status) {
+    let accepted = resp.status == 101 || (200..400).contains(&resp.status);
+    if accepted {
         if by_config {
             denied_routes.entry(format!("{}:{}", who.name, form)).or_default().push(format!("{} -> {}", r.name, resp.status));
             rep.count(&format!("accepted_though_config_refuses:{}", ctx.cfg.name), 1);
@@ -580,7 +581,7 @@ async fn expect_refused(ctx: &Ctx<'_>, rep: &mut Reporter, server: &TestServer, 
     } else {
         rep.count("refused", 1);
     }
-    if !changed.is_empty() {
+    if !changed.is_empty() && !(by_config && accepted) {
         let clause = if by_config { format!("config_{}:state_changed", ctx.cfg.name) } else { "state_changed".to_string() };
         rep.violation(&format!("C11:{}:{form}:{clause}", r.name), &format!("server state changed after a request that had to be refused (status {}): {:?}", resp.status, &changed[..changed.len().min(8)]), rp);
     }
@@ -699,6 +700,9 @@ async fn run_config(ctx: &Ctx<'_>, rep: &mut Reporter, stage: &Stage, dir: &Path
         );
     }
 
+    if ctx.cfg.name == "none" {
+        ws_preregistration(ctx, rep, &server, stage).await;
+    }
     // 4. valid controls for admitted identities: the handler must be reached
     if ctx.cfg.documented_allows(&m.a.id) {
         let mut rs: Vec<&Route> = routes.iter().filter(|r| !r.probe_only).collect();
@@ -719,6 +723,88 @@ async fn run_config(ctx: &Ctx<'_>, rep: &mut Reporter, stage: &Stage, dir: &Path
     server.shutdown().await;
     let _ = std::fs::remove_dir_all(dir);
     Ok(())
+}
+
+
+/// Consequence of `verify_device` answering Ok for an account the server
+/// does not hold: anybody can register a websocket for an account id that
+/// is not there YET; once the owner creates the account and pushes
+/// changes the server broadcasts the change notifications to that socket.
+async fn ws_preregistration(ctx: &Ctx<'_>, rep: &mut Reporter, server: &TestServer, stage: &Stage) {
+    use futures::StreamExt;
+    use sos_protocol::tokio_tungstenite::{connect_async, tungstenite::client::IntoClientRequest, tungstenite::Message};
+    use sos_protocol::RemoteSync;
+    let m = &stage.material;
+    let Some(cdev) = stage.devices.iter().find(|d| d.account_id == m.c.id) else { return };
+    if server.account_ids().await.contains(&m.c.id) {
+        return;
+    }
+    let path = format!("{V1}/sync/changes");
+    let bearer = http::bearer_for(&http::fresh_signer(), path.as_bytes()).await;
+    let url = format!("ws://{}{}?connection_id=stranger", server.addr, path);
+    let Ok(mut req) = url.into_client_request() else { return };
+    req.headers_mut().insert(http::ACCOUNT_HEADER, m.c.id.to_string().parse().unwrap());
+    req.headers_mut().insert("authorization", format!("Bearer {bearer}").parse().unwrap());
+    let mut h = Fnv::new();
+    h.str("ws_preregistration").str(ctx.cfg.name).u64(ctx.server_db as u64);
+    rep.case(h.finish(), true);
+    rep.count("requests", 1);
+    rep.count("form:ws_unknown_key_for_absent_account", 1);
+    let mut stream = match tokio::time::timeout(WAIT, connect_async(req)).await {
+        Ok(Ok((s, _))) => s,
+        Ok(Err(_)) => {
+            rep.count("refused", 1);
+            return;
+        }
+        Err(_) => {
+            rep.inconclusive("websocket handshake not answered within the bounded wait");
+            return;
+        }
+    };
+    // the owner now creates the account on the server and pushes a change
+    let Ok(bridge) = HttpDevice::bridge_for(cdev.account.clone(), cdev.account_id, &cdev.signer, &server.origin, "dev-c") else { return };
+    if let Err(e) = bridge.sync().await.result {
+        rep.inconclusive(&format!("owner could not create the account: {e}"));
+        return;
+    }
+    {
+        let mut acc = cdev.account.lock().await;
+        let folder = match acc.default_folder().await {
+            Some(f) => *f.id(),
+            None => return,
+        };
+        let meta = SecretMeta::new("owner's note".into(), sos_vault::secret::SecretType::Note);
+        if acc.create_secret(meta, Secret::Note { text: "x".to_string().into(), user_data: Default::default() }, AccessOptions { folder: Some(folder), ..Default::default() }).await.is_err() {
+            return;
+        }
+    }
+    if let Err(e) = bridge.sync().await.result {
+        rep.inconclusive(&format!("owner could not push a change: {e}"));
+        return;
+    }
+    // bounded read on the stranger's socket
+    let got = tokio::time::timeout(Duration::from_secs(5), async {
+        while let Some(msg) = stream.next().await {
+            match msg {
+                Ok(Message::Binary(b)) => return Some(b.to_vec()),
+                Ok(_) => continue,
+                Err(_) => return None,
+            }
+        }
+        None
+    })
+    .await;
+    match got {
+        Ok(Some(frame)) => {
+            let decoded = sos_protocol::NetworkChangeEvent::decode(bytes::Bytes::from(frame.clone())).await.map(|e| format!("{e:?}")).unwrap_or_else(|e| format!("undecodable: {e}"));
+            rep.violation(
+                &format!("C11:GET {V1}/sync/changes:unknown_key_for_absent_account:receives_change_notifications"),
+                &format!("a websocket opened with a never-trusted key for an account id the server did not hold yet kept receiving the account's change notifications after the owner created the account: {}", &decoded[..decoded.len().min(300)]),
+                json!({"check": "c11", "seed": ctx.args.seed, "shard": ctx.args.shard, "config": ctx.cfg.name, "server_backend": if ctx.server_db {"db"} else {"fs"}, "frame_len": frame.len()}),
+            );
+        }
+        _ => rep.count("ws_preregistration_no_frame", 1),
+    }
 }
 
 async fn valid_control(ctx: &Ctx<'_>, rep: &mut Reporter, server: &TestServer, m: &Material, r: &Route, who: &Ident) {
@@ -803,8 +889,10 @@ pub async fn run(args: &Args, rep: &mut Reporter) {
             d.close().await;
         }
     }
+    // panics are the subject of C15 (see `run_c15_http`); here they are only noted
     for p in http::panics_since(panics0) {
-        rep.violation("C11:panic_in_process", &format!("a panic was recorded while the server handled the probes: {p}"), json!({"check": "c11", "seed": args.seed, "shard": args.shard}));
+        rep.count("panics_observed_in_process", 1);
+        rep.sample(json!({"panic_while_probing": p}));
     }
     let _ = std::fs::remove_dir_all(&base);
 }
